@@ -251,6 +251,21 @@ def programs_noncontig(tier):
         F("p", T_u(5), [(23, 1), (0, 4)]),                 # top exposed bit first
         F("q", T_u(8), [(4, 2), (8, 2), (12, 2), (16, 2)]),
     ])], props=("C04", "C11", "C16", "C12")))
+    # native-typed list fields narrower than the base whose HIGHEST bit index equals the type width (8, 16, 32): a gather done
+    # after narrowing to the field type would drop exactly that bit (seed C04-j)
+    progs.append(Program("ncw", structs=[S("ncw16", 16, [
+        F("level", T_u(8), [(0, 4), (5, 4)]),                     # bits 0..=3, 5..=8
+        F("k", T_u(4), (12, 4)),
+    ], name="Sncw16"), S("ncw64", 64, [
+        F("lane", T_u(8), [(0, 4), (5, 4)], array=(4, 16)),       # element 0 has highest bit 8
+        F("w", T_u(16), [(10, 1), (41, 15)]),                     # highest bit 55
+    ], name="Sncw64"), S("ncw32", 32, [
+        F("h", T_u(16), [(16, 1), (0, 15)]),                      # highest bit index 16 listed FIRST
+        F("g", T_u(8), [(17, 4), (24, 4)]),
+    ], name="Sncw32"), S("ncw128", 128, [
+        F("d", T_u(32), [(0, 31), (32, 1)]),                      # highest bit index 32
+        F("q", T_u(64), [(33, 31), (64, 33)]),                    # highest bit index 96, crossing bit 64
+    ], name="Sncw128")], props=("C04", "C03", "C16")))
     if tier == "thorough":
         progs.append(Program("nc33", structs=[S("nc33", 33, [
             F("x", T_u(9), [(32, 1), (0, 8)]),
@@ -459,6 +474,21 @@ def programs_enum_fields(tier):
         F("m4", FT("nested", 4, in4), [(0, 2), (20, 2)]),  # nested type over two ranges
         F("a4", FT("nested", 4, in4), (2, 4), array=(1 + 1, None)),
     ])], props=("C08", "C16")))
+    # WIDE nested bitfields (65..=128 bits): the raw value must pass through untruncated (seed C08-j: `as u64` on the way in)
+    in100 = Struct("In100", 100, [F("lo", T_u(64), (0, 64)), F("mid", T_u(8), (64, 8)), F("top", T_u(4), (96, 4))])
+    in72 = Struct("In72", 72, [F("lo", T_u(36), (0, 36)), F("hi", T_u(36), (36, 36))])
+    progs.append(Program("nestw", structs=[in100, S("nestw", 128, [
+        F("tag", T_u(8), (0, 8)),
+        F("desc", FT("nested", 100, in100), (8, 100)),
+        F("crc", T_u(20), (108, 20)),              # ends at the top bit
+    ])], props=("C08", "C16")))
+    progs.append(Program("nestw2", structs=[in72, S("nestw2", 128, [
+        F("d", FT("nested", 72, in72), [(0, 40), (96, 32)]),   # wide nested type over two ranges, the second ending at the top bit
+        F("k", T_u(56), (40, 56)),
+    ])], props=("C08", "C04", "C16")))
+    in128 = Struct("In128", 128, [F("lo", T_u(64), (0, 64)), F("hi", T_u(64), (64, 64))])
+    progs.append(Program("nestfull128", structs=[in128, S("nestfull128", 128, [F("inner", FT("nested", 128, in128), (0, 128))])],
+                         props=("C08", "C16")))
     if tier == "thorough":
         e8x = Enum("Ef8x", 8, [(f"V{v}", v) for v in range(256)], exhaustive="true")
         e4m = mk_enum("Ef4m", 4, None, values=[9, 1, 15])
